@@ -328,7 +328,7 @@ class SupervisedOPF(OPF):
             )
 
             if delta < 0.0001 or t == n_iterations:
-                self = best_opf
+                self.subgraph = best_opf.subgraph
 
                 logger.info(
                     "Best classifier has been learned over iteration %d.", best_t + 1
